@@ -5,11 +5,126 @@ residual / split theorems of C10 and C17 for the violation).  Tie: trace validat
 the cross product of the property, plus an independent recomputation, in the user's variables and from
 the values the user functions actually returned, of the objective value and of the maximum violation at
 the returned point."""
+import os
+import subprocess
+from fractions import Fraction
 import numpy as np
+import common
 import runlevel
 MODULES = ["CobyqaVerif.Props.C02"]
 LEVEL = "proof"
 EPS = float(np.finfo(float).eps)
+
+
+# ---------------------------------------------------------------- assembly of Problem.maxcv against the Lean definition
+def _q(v):
+    fr = Fraction(float(v))
+    return f"(({fr.numerator} : Rat) / {fr.denominator})"
+
+
+def _lim(v):
+    v = float(v)
+    return ".ninf" if v == -np.inf else ".pinf" if v == np.inf else f".fin {_q(v)}"
+
+
+def _lst(vs):
+    return "[" + ", ".join(_q(v) for v in vs) + "]"
+
+
+def gen_assembly_case(r):
+    """dyadic data (multiples of 1/4, small): every float operation of the implementation is exact, so the exact
+    rational value of the Lean definition must EQUAL what Problem.maxcv returns"""
+    n = int(r.integers(1, 4))
+    q = lambda lo, hi: float(r.integers(4 * lo, 4 * hi + 1)) / 4.0
+    kind = r.choice(["consistent", "consistent", "inconsistent", "free"])
+    lb, ub = [], []
+    for i in range(n):
+        u = r.random()
+        if kind == "free" or u < 0.2:
+            lb.append(-np.inf); ub.append(np.inf)
+        elif u < 0.4:
+            lb.append(q(-2, 0)); ub.append(np.inf)
+        elif u < 0.6:
+            lb.append(-np.inf); ub.append(q(0, 2))
+        else:
+            lb.append(q(-2, -1)); ub.append(q(1, 2))
+    if kind == "inconsistent":
+        i = int(r.integers(n))
+        lb[i], ub[i] = q(1, 2), q(-2, 0)          # lb > ub by at least 1: not "fixed", not is_feasible
+    x = [q(-3, 3) for _ in range(n)]
+    if kind != "inconsistent":                    # the solver only evaluates points within consistent bounds (C01)
+        x = [min(max(v, l), u) for v, l, u in zip(x, lb, ub)]
+    m_lin, m_nl = int(r.integers(0, 3)), int(r.integers(0, 3))
+    A = [[q(-2, 2) for _ in range(n)] for _ in range(m_lin)]
+    b = [q(-3, 3) for _ in range(m_lin)]
+    zero_all = r.random() < 0.2                    # the count_nonzero shortcut: satisfied rows only
+    cub = [(-abs(q(-3, 3)) if zero_all else q(-3, 3)) for _ in range(m_nl)]
+    if zero_all:
+        b = [float(np.dot(a, x)) + abs(q(0, 2)) for a in A]
+    return {"lb": [repr(v) for v in lb], "ub": [repr(v) for v in ub], "x": x, "A": A, "b": b, "cub": cub}
+
+
+def run_assembly_cases(cases):
+    """returns per case (impl value, model value, independent true value)"""
+    import impl
+    from scipy.optimize import Bounds, LinearConstraint, NonlinearConstraint
+    lines = ["import CobyqaVerif.Props.C02", "open Cobyqa"]
+    out = []
+    for c in cases:
+        lb, ub = [float(v) for v in c["lb"]], [float(v) for v in c["ub"]]
+        x = np.array(c["x"], dtype=float)
+        n = len(x)
+        lin = [LinearConstraint(np.array(c["A"], dtype=float).reshape(-1, n), -np.inf, np.array(c["b"], dtype=float))] if c["A"] else []
+        nl = [NonlinearConstraint(lambda z, vals=tuple(c["cub"]): np.array(vals, dtype=float), -np.inf, 0.0)] if c["cub"] else []
+        pb = impl.make_problem(lambda z: 0.0, np.array(x), Bounds(np.array(lb), np.array(ub)), lin, nl)
+        _, cub, ceq = pb(np.array(x))              # the real evaluation path (the constraint objects exist only after a call)
+        cub = np.asarray(cub, dtype=float)
+        got = float(pb.maxcv(x, cub, ceq))
+        lblock = [float(v) for v in pb.linear.violation(x)] if c["A"] else []
+        nblock = [float(v) for v in np.maximum(cub, 0.0)]
+        feas = bool(pb.bounds.is_feasible)
+        bs = "[" + ", ".join(f"({_lim(l)}, {_lim(u)})" for l, u in zip(lb, ub)) + "]"
+        lines.append(f"#eval IO.println (toString (assembleMaxcv {'true' if feas else 'false'} (boundViolation {bs} {_lst(x)}) {_lst(lblock)} {_lst(nblock)}))")
+        # the statement of the property, independently: largest amount by which a constraint AS STATED is exceeded
+        ex = [0.0]
+        for v, l, u in zip(x, lb, ub):
+            ex += [l - v if np.isfinite(l) else 0.0, v - u if np.isfinite(u) else 0.0]
+        ex += [float(np.dot(a, x)) - bb for a, bb in zip(c["A"], c["b"])]
+        ex += [float(v) for v in cub]
+        out.append([got, None, max(ex), feas])
+    d = os.path.join(common.LEAN, ".lake", "audit")
+    os.makedirs(d, exist_ok=True)
+    path = os.path.join(d, "AssemblyC02.lean")
+    with open(path, "w") as f:
+        f.write("\n".join(lines) + "\n")
+    r = subprocess.run(["lake", "env", "lean", path], cwd=common.LEAN, capture_output=True, text=True, timeout=900)
+    ans = [ln for ln in r.stdout.split("\n") if ln.strip()]
+    if r.returncode != 0 or len(ans) != len(cases):
+        raise RuntimeError(f"assembly model run failed rc={r.returncode} answers={len(ans)}/{len(cases)}: {(r.stdout + r.stderr)[:400]}")
+    for o, a in zip(out, ans):
+        o[1] = float(Fraction(a.strip()))
+    return out
+
+
+def assembly_tie(chk, cases, replaying=False):
+    res = run_assembly_cases(cases)
+    stats = {"cases": len(cases), "bound_block_computed": 0, "positive": 0, "zero": 0, "agree": 0}
+    for c, (got, model, true, feas) in zip(cases, res):
+        stats["bound_block_computed"] += (not feas)
+        stats["positive" if true > 0 else "zero"] += 1
+        if got != true:
+            chk.violation({"property": "C02", "kind": "assembly-spec-fails-on-implementation", "case": c,
+                           "failure": f"Problem.maxcv returns {got!r}, the largest violation of the constraints as stated is {true!r}",
+                           "explain": "harness/props/c02.py run_assembly_cases builds the real Problem (harness/impl.py make_problem) from the case and evaluates it at x (Problem.__call__) and calls Problem.maxcv(x, cub, ceq)",
+                           "signature": {"failure": "assembly"}})
+        elif model != got:
+            chk.violation({"property": "C02", "kind": "assembly-correspondence", "case": c,
+                           "failure": f"Lean assembleMaxcv = {model!r}, Problem.maxcv = {got!r} (equal to the true violation): the model no longer describes the code; theorem maxcv_assembled_true is about the model",
+                           "signature": {"failure": "assembly-correspondence"}}, no_input=True)
+        else:
+            stats["agree"] += 1
+    if not replaying:
+        chk.coverage["maxcv_assembly_tie"] = dict(stats, rule="exact comparison on dyadic data of Problem.maxcv with the Lean definition assembleMaxcv (the subject of maxcv_assembled_true / maxcv_zero_iff) evaluated over Q, and with the independent maximum of the stated excesses; bounds consistent (block skipped) / inconsistent (block computed) / absent, 0-2 linear rows, 0-2 nonlinear values, a share with no violated row (count_nonzero shortcut)")
 
 
 def truth(chk, verdicts):
@@ -58,6 +173,11 @@ def truth(chk, verdicts):
 
 
 def run(chk, rng, replay=None):
+    if replay is not None and str(replay.get("kind", "")).startswith("assembly"):
+        common.proof_stage(chk, MODULES)
+        assembly_tie(chk, [replay["case"]], replaying=True)
+        return
+
     def tweak(d, r):
         # widen the cross product: scale, fixed variables, both bound forms
         if r.random() < 0.4:
@@ -77,5 +197,8 @@ def run(chk, rng, replay=None):
                     d["bounds"]["lb"][i] = v
                     d["bounds"]["ub"][i] = v
         return d
+    if replay is None:
+        r2 = np.random.default_rng([chk.seed, 202])
+        assembly_tie(chk, [gen_assembly_case(r2) for _ in range(120 if chk.tier == "quick" else 1500)])
     runlevel.run_check(chk, rng, replay, "C02", MODULES, "nan", 260, 4000, {"C02", "C03"}, extra=truth, tweak=tweak,
                        doc="the returned x is an evaluated point, fun the raw value obtained there, maxcv the true maximum violation in the user's variables - for scale on/off, fixed variables, linear / nonlinear / dict constraints, one-sided / two-sided / equality limits, NaN and infinite function values, every status")
